@@ -109,9 +109,17 @@ def _run_unit_once(name, rlimit=None, extra_args=(), expanded_src=None, use_cach
     os.makedirs(cdir, exist_ok=True)
     cpath = os.path.join(cdir, key + ".json")
     t0 = time.time()
+    cached = None
     if use_cache and os.path.exists(cpath) and not os.environ.get("VERIF_NO_CACHE"):
-        with open(cpath) as f:
-            d = json.load(f)
+        try:
+            with open(cpath) as f:
+                cached = json.load(f)
+            if "verification-results" not in cached.get("out", ""):
+                cached = None      # an interrupted or unreadable run was stored: do not trust it
+        except Exception:
+            cached = None
+    if cached is not None:
+        d = cached
         out, err, rc = d["out"], d["err"], d["rc"]
         r.cached = True
         r.wall_s = d.get("wall_s", 0.0)
@@ -195,8 +203,10 @@ def _run_unit_once(name, rlimit=None, extra_args=(), expanded_src=None, use_cach
         else:
             r.undecided = "verus timeout after %ds (the unit verifies in a fraction of that on the unchanged tree: a proof that no longer goes through)" % (timeout or VERUS_TIMEOUT)
             return r
-        with open(cpath, "w") as f:
-            json.dump({"out": out, "err": err, "rc": rc, "wall_s": r.wall_s}, f)
+        if "verification-results" in out:
+            with open(cpath + ".tmp%d" % os.getpid(), "w") as f:
+                json.dump({"out": out, "err": err, "rc": rc, "wall_s": r.wall_s}, f)
+            os.replace(cpath + ".tmp%d" % os.getpid(), cpath)
     r.raw_stderr = err
     try:
         o = json.loads(out[out.index('{'):])
